@@ -1,11 +1,11 @@
 /-
-Lemmas about the model of the constructors (EdzedModel/Ctor.lean): reading the heap after the stores,
+Lemmas about the model of the constructors (EdzedModel/BlkCtor.lean): reading the heap after the stores,
 the `x_…` loop, the marking of an external source, the automatic names.
 -/
-import EdzedModel.Ctor
+import EdzedModel.BlkCtor
 
-namespace Edzed.Ctor
-open CtorPy
+namespace Edzed.BlkCtor
+open BlkCtorPy
 
 /-! ### the heap -/
 
@@ -418,4 +418,4 @@ theorem extInit_non_string_source (w : World) (self : Nat) (dest etype source : 
       obtain ⟨s, h1, _⟩ := extInit_source_stored w w' self dest etype source hr
       rw [hs] at h1; cases h1
 
-end Edzed.Ctor
+end Edzed.BlkCtor
